@@ -1,6 +1,7 @@
 //! Verification harness: runs the real mqtt-protocol-core code and writes line-protocol
 //! traces that the Lean driver (`mqttdrv`) replays through the model.
 mod alloc;
+mod bulk;
 mod conn;
 mod conn_gen;
 mod codec;
@@ -29,6 +30,7 @@ fn main() {
         "alloc" => alloc::generate(tier, seed, &mut out),
         "frame" => frame::generate(tier, seed, &mut out),
         "gates" => gates::generate(tier, seed, &mut out),
+        "bulk" => bulk::generate(tier, seed, &mut out),
         "pair" => pair::generate(tier, seed, &args[4.min(args.len())..], &mut out),
         "conn" => conn_gen::generate(tier, seed, &args[4.min(args.len())..], &mut out),
         "tables" => tables::generate(tier, seed, &mut out),
